@@ -879,6 +879,9 @@ func rulesC16(e *Engine, r *Report) {
 		}
 		r.Min("R16.15", "retry loops with a back-off in package client", n, 4)
 	}
+	// ---------------------------------------------------------------- R16.16
+	r.Rule("R16.16", "the start-up poll makes progress: recovery asks the receiver about its unfinished files in batches of PollMaxCount and leaves its loop when the list is used up - with a batch size of zero the list never shrinks and the loop, which only looks at the immediate-stop flag, never ends (a graceful or one-shot stop never terminates); main fills that size from an option that setDefaults leaves positive on every success path")
+	e.checkOptionPositive(r, "R16.16", "PollMaxCount", "the start-up recovery slices its poll list by that number - with 0 it asks about 0 files for ever")
 }
 
 func shortPred(p string) string {
